@@ -15,7 +15,7 @@
 (* the value argparse substitutes when it is omitted, the library parameter it must reach         *)
 (* (`dest`), and the library's own default for that parameter (`lib`).  The theorems below say    *)
 (* that the transcription keeps the contract over the whole (subcommand x option subset x value)  *)
-(* space; the as-built exceptions are NAMED (DefaultDeviations, Suppressed, NeedRaises, ...) and  *)
+(* space; the as-built exceptions are NAMED (DefaultDeviations, Suppressed, NeededOptionStops) and *)
 (* the unconditional "ideal" statements are kept as negative controls that TLC refutes.           *)
 (*                                                                                               *)
 (* `proc` is what survives in the Python process between two invocations of entrypoint(): the     *)
